@@ -516,6 +516,11 @@ class SimFS(object):
         if snode is None:
             raise _err(errno.ENOENT, s, d)
         dparent, dname, dnode = self._parent(dst)
+        if snode.kind == 'd':
+            # a directory cannot be moved into itself
+            sc_, dc_ = self._split(src), self._split(dst)
+            if len(dc_) > len(sc_) and dc_[:len(sc_)] == sc_:
+                raise _err(errno.EINVAL, s, d)
         if dnode is not None:
             if dnode is snode:
                 return
@@ -532,9 +537,9 @@ class SimFS(object):
         s, d = os.fspath(src), os.fspath(dst)
         self._enter('link', (s, d))
         snode = self._resolve(src, follow=False)
+        dparent, dname, dnode = self._parent(dst)
         if snode.kind == 'd':
             raise _err(errno.EPERM, s, d)
-        dparent, dname, dnode = self._parent(dst)
         if dnode is not None:
             raise _err(errno.EEXIST, s, d)
         self._mut(('link', dparent.ino, dname, snode.ino, self._now()))
@@ -614,7 +619,9 @@ class SimFS(object):
         acc = flags & os.O_ACCMODE
         readable = acc in (os.O_RDONLY, os.O_RDWR)
         writable = acc in (os.O_WRONLY, os.O_RDWR)
-        parent, name, node = self._parent(path, follow_last=not (flags & os.O_NOFOLLOW))
+        excl = bool(flags & os.O_CREAT) and bool(flags & os.O_EXCL)
+        # O_CREAT|O_EXCL never follows a symlink in the last component: an existing name (even a dangling link) is EEXIST
+        parent, name, node = self._parent(path, follow_last=not (flags & os.O_NOFOLLOW) and not excl)
         if node is None:
             # might be a dangling symlink followed to a missing name: _walk returned the final parent
             if not (flags & os.O_CREAT):
@@ -777,6 +784,8 @@ class SimFS(object):
         if fd is None:
             fd = self.os_open(file, flags, 0o666)
             ofd = self._ofd(fd)
+        if 'a' in m:
+            ofd.pos = len(ofd.inode.data)       # FileIO positions an append-mode file at its end
         rawmode = ('rb+' if plus else 'rb') if 'r' in m else (mode.replace('t', '') if binary else mode.replace('t', '') + 'b')
         raw = SimRaw(self, fd, ofd, rawmode, closefd)
         if buffering == 0:
